@@ -151,11 +151,11 @@ func (c *Check) peerManagerContracts(rule string) {
 			why: "a started peer dials (unless passive) and has a manager goroutine"},
 		contract{fn: "peer.stop", name: "close signalled then joined", must: []string{"call:sync.Once.Do", "recv:doneCh"},
 			why: "stop returns only after the manager goroutine has disabled both FSMs"},
-		contract{fn: "peer.stop", closure: closureCalling("builtin:close"), name: "the Once closes closeCh", must: []string{"close:closeCh"},
+		contract{fn: "peer.stop", closure: onceBody, name: "the Once closes closeCh", must: []string{"close:closeCh"},
 			why: "closeCh is what every blocking select of the manager and its senders listens to"},
 		contract{fn: "fsm.stop", name: "close signalled then joined", must: []string{"call:sync.Once.Do", "recv:doneCh"},
 			why: "disableFSM relies on stop returning only after run's deferred cleanup"},
-		contract{fn: "fsm.stop", closure: closureCalling("builtin:close"), name: "the Once closes closeCh", must: []string{"close:closeCh"},
+		contract{fn: "fsm.stop", closure: onceBody, name: "the Once closes closeCh", must: []string{"close:closeCh"},
 			why: "closeCh is what every blocking select of the FSM listens to"},
 		contract{fn: "fsm.start", name: "run goroutine started", must: []string{"go:fsm.run"}, why: "start starts the FSM"},
 	)
@@ -267,7 +267,7 @@ func (c *Check) serverContracts(rule string) {
 			why: "Close returns only after Serve has stopped every peer (OnClose delivered)"},
 		{fn: "Server.Close", name: "not serving => close signalled, returns at once", hook: serving(0), must: []string{"call:sync.Once.Do", "call:sync.Mutex.Unlock"}, mustNot: []string{"recv:doneServingCh"},
 			why: "nobody will ever close doneServingCh when Serve is not running: waiting for it would hang"},
-		{fn: "Server.Close", closure: closureCalling("builtin:close"), name: "the Once closes closeCh", must: []string{"close:closeCh"},
+		{fn: "Server.Close", closure: onceBody, name: "the Once closes closeCh", must: []string{"close:closeCh"},
 			why: "closeCh is what Serve's blocking select listens to"},
 		{fn: "Server.Serve", name: "after serving started: listeners closed and accept loops joined before returning", inline: true,
 			sel:  func(r ReturnSite) bool { return r.State.must["store:serving"] },
@@ -293,6 +293,14 @@ func (c *Check) serverContracts(rule string) {
 		// accept loop: an Accept error ends the loop, a connection is handled
 		for _, errNil := range []bool{true, false} {
 			cl := p.closureWithCall(fn, descIs("invoke:net.Listener.Accept"))
+			if cl == nil {
+				// the accept loop as a function of its own
+				for _, g := range p.AllFuncs {
+					if len(p.callsIn(g, descIs("invoke:net.Listener.Accept"))) > 0 && cl == nil {
+						cl = g
+					}
+				}
+			}
 			if cl == nil {
 				c.undecided(rule, "Server.Serve", "accept loop", p.Pos(fn.Pos()), "no closure calling Listener.Accept")
 				break
@@ -414,7 +422,7 @@ func (c *Check) fsmContracts(rule string) {
 			why: "the connection slot is reused only after the reader of the old connection has exited"},
 		contract{fn: "fsm.cleanupConnAndReader", name: "no reader ever started => returns", hook: nnField("closeReaderCh", false), mustNot: []string{"call:sync.Once.Do", "recv:readerDoneCh"},
 			why: "closing a nil channel panics; receiving from a nil channel blocks for ever"},
-		contract{fn: "fsm.cleanupConnAndReader", closure: closureCalling("builtin:close"), name: "the Once closes closeReaderCh", must: []string{"close:closeReaderCh"},
+		contract{fn: "fsm.cleanupConnAndReader", closure: onceBody, name: "the Once closes closeReaderCh", must: []string{"close:closeReaderCh"},
 			why: "closeReaderCh is what the reader's hand-off selects listen to"},
 		contract{fn: "fsm.cleanupConnAndReader", name: "no connection => Close not called", hook: nnField("conn", false), noReach: []string{"invoke:net.Conn.Close"},
 			why: "Close on a nil connection panics"},
@@ -536,6 +544,9 @@ func (c *Check) fsmContracts(rule string) {
 					if (e.Op == "mphi" || e.Op == "ld" || e.Op == "phi") && strings.Contains(e.Key, "fa:from(alloc") {
 						return set, true
 					}
+					if isFieldVal(e, "from") && strings.Contains(e.Key, "(alloc:") && !strings.Contains(e.Key, "rcall:") {
+						return set, true
+					}
 					return nil, false
 				}
 			}
@@ -543,6 +554,9 @@ func (c *Check) fsmContracts(rule string) {
 			// (the request being made is never for disabled: run returns there)
 			toHook := func(e *Expr) (ISet, bool) {
 				if (e.Op == "mphi" || e.Op == "ld" || e.Op == "phi") && strings.Contains(e.Key, "fa:to(alloc") {
+					return isRange(1, p.MustConst("establishedState")), true
+				}
+				if isFieldVal(e, "to") && strings.Contains(e.Key, "(alloc:") && !strings.Contains(e.Key, "rcall:") {
 					return isRange(1, p.MustConst("establishedState")), true
 				}
 				return nil, false
@@ -616,30 +630,64 @@ func (c *Check) fsmContracts(rule string) {
 						continue
 					}
 					if v.Op == "phi" {
-						// the variable the dispatch assigns: every edge a state handler's result
+						// the variable the dispatch assigns: every edge (through
+						// further phis) a state handler's result, or disabled
+						var fromHandlers func(x ssa.Value, depth int) bool
+						fromHandlers = func(x ssa.Value, depth int) bool {
+							if depth > 4 {
+								return false
+							}
+							switch y := x.(type) {
+							case *ssa.Const:
+								return y.Value != nil && y.Int64() == 0
+							case *ssa.Call:
+								d := p.calleeDesc(y)
+								if h := p.helperCallee(y); h != nil {
+									// a dispatch helper: its results
+									ok := true
+									for _, b := range h.Blocks {
+										if ret, isR := b.Instrs[len(b.Instrs)-1].(*ssa.Return); isR && len(ret.Results) > 0 {
+											ok = ok && fromHandlers(ret.Results[0], depth+1)
+										}
+									}
+									return ok
+								}
+								return strings.HasPrefix(d, "fsm.")
+							case *ssa.Extract:
+								if y.Index != 0 {
+									return false
+								}
+								return fromHandlers(y.Tuple, depth+1)
+							case *ssa.Phi:
+								for _, e := range y.Edges {
+									if e != ssa.Value(y) && !fromHandlers(e, depth+1) {
+										return false
+									}
+								}
+								return true
+							case *ssa.UnOp:
+								// a named result read back from its cell
+								if al, isA := y.X.(*ssa.Alloc); isA {
+									ok, n := true, 0
+									for _, r := range *al.Referrers() {
+										if st, isS := r.(*ssa.Store); isS && st.Addr == ssa.Value(al) {
+											n++
+											ok = ok && fromHandlers(st.Val, depth+1)
+										}
+									}
+									return ok && n > 0
+								}
+							}
+							return false
+						}
 						okPhi := false
-						ownInstrs(fn, func(in ssa.Instruction) {
-							ph, isPhi := in.(*ssa.Phi)
-							if !isPhi || ph.Name()+"#" != v.S {
-								return
-							}
-							okPhi = true
-							for _, e := range ph.Edges {
-								var call *ssa.Call
-								switch x := e.(type) {
-								case *ssa.Call:
-									call = x
-								case *ssa.Extract:
-									call, _ = x.Tuple.(*ssa.Call)
+						for _, g := range deepFuncs(fn) {
+							ownInstrs(g, func(in ssa.Instruction) {
+								if ph, isPhi := in.(*ssa.Phi); isPhi && ph.Name()+"#" == v.S && fromHandlers(ph, 0) {
+									okPhi = true
 								}
-								if cst, isC := e.(*ssa.Const); isC && cst.Value != nil && cst.Int64() == 0 {
-									continue // no handler ran: disabled
-								}
-								if call == nil || !strings.HasPrefix(p.calleeDesc(call), "fsm.") {
-									okPhi = false
-								}
-							}
-						})
+							})
+						}
 						if okPhi {
 							continue
 						}
@@ -762,6 +810,85 @@ func (c *Check) fsmContracts(rule string) {
 			c.require(offered == !fails, rule, "updateMessageWriter.WriteUpdate", fmt.Sprintf("write failed=%v", fails), p.Pos(fn.Pos()),
 				"the keepalive timer is restarted after an UPDATE was written (it counts as a KEEPALIVE), and only then")
 		}
+	}
+	c.contracts(rule, rows)
+}
+
+// codecContracts: results of inner decoders / encoders are used, and the
+// one-octet length limits sit exactly at 255.
+func (c *Check) codecContracts(rule string) {
+	p := c.P
+	var rows []contract
+	if fn := p.Fn("openMessage.decode"); fn != nil && len(fn.Params) == 2 {
+		b := paramExpr(fn, 1)
+		wellFormed := func(a *Analysis, st *State) {
+			lenB := mkLen(b)
+			st.addFact(Fact{L: st.linOf(lenB).add(linConst(10), -1)})
+			d := st.linOf(byteLoad(b, 9)).add(st.linOf(lenB), -1).add(linConst(10), 1)
+			st.addFact(Fact{L: d})
+			st.addFact(Fact{L: d.neg()})
+		}
+		errNil := func(r ReturnSite) bool { return len(r.Results) == 1 && r.Results[0].IsNil() }
+		rows = append(rows,
+			contract{fn: "openMessage.decode", name: "parameters decoded => stored, accepted", init: wellFormed, hook: nnResult("decodeOptionalParams", false),
+				sel: func(r ReturnSite) bool { return true }, must: []string{"store:optionalParams", "store:version", "store:asn", "store:holdTime", "store:bgpID"},
+				why: "an OPEN whose fixed part and parameters are well-formed is accepted with everything recorded"},
+			contract{fn: "openMessage.decode", name: "parameter decoding failed => rejected", init: wellFormed, hook: nnResult("decodeOptionalParams", true),
+				sel: errNil, minRet: -1, mustNot: []string{"call:decodeOptionalParams"},
+				why: "an OPEN with malformed optional parameters is never accepted"},
+		)
+		// accepted means nil: under the first assumption no return carries an error
+		a := NewAnalysis(p, fn)
+		a.Init = wellFormed
+		a.AtomHook = nnResult("decodeOptionalParams", false)
+		a.Run()
+		rej := 0
+		for _, rs := range p.errReturns(a) {
+			if !isAccept(rs) {
+				rej++
+			}
+		}
+		c.require(rej == 0 && len(a.Returns) > 0, rule, "openMessage.decode", "well-formed OPEN => no error", p.Pos(fn.Pos()), "a well-formed OPEN whose parameters decode is accepted")
+	}
+	if fn := p.Fn("openMessage.getCapabilities"); fn != nil {
+		isCap := func(v int64) func(e *Expr) (ISet, bool) {
+			return func(e *Expr) (ISet, bool) {
+				if e.Op == "istype" && strings.Contains(e.S, "capabilityOptionalParam") {
+					return isConst(v), true
+				}
+				return nil, false
+			}
+		}
+		rows = append(rows,
+			contract{fn: "openMessage.getCapabilities", name: "capability parameters contribute their capabilities", hook: isCap(1), minRet: -1, reach: []string{"builtin:append"},
+				why: "the capabilities the remote sent are what validation and the plugin see"},
+			contract{fn: "openMessage.getCapabilities", name: "other parameters contribute nothing", hook: isCap(0), minRet: -1, noReach: []string{"builtin:append"},
+				why: "a parameter of another type has no capability list (nil dereference)"},
+		)
+	}
+	if fn := p.Fn("openMessage.encode"); fn != nil {
+		// the success return admits exactly up to 255 octets of parameters
+		a := NewAnalysis(p, fn)
+		a.Run()
+		n := 0
+		for _, r := range a.Returns {
+			if len(r.Results) != 2 || !r.Results[1].IsNil() || r.Results[0].Op != "rcall" || len(r.Results[0].Args) < 2 {
+				continue
+			}
+			lay, lerr := r.State.layoutOf(r.Results[0].Args[1], 0)
+			if lerr != "" || len(lay) == 0 || lay[len(lay)-1].Kind != "bytes" {
+				continue // no parameters in this state
+			}
+			n++
+			rng := r.State.rangeOf(mkLen(lay[len(lay)-1].Val))
+			c.require(rng.Contains(255) && !rng.Contains(256), rule, "openMessage.encode", "Opt Parm Len limit", p.InstrPos(r.Instr),
+				"the one-octet Opt Parm Len holds up to 255: on success len(params) ∈ "+rng.String()+" must reach 255 and not 256")
+		}
+		c.floor(rule, n, 1, "successful returns of openMessage.encode with parameters")
+		rows = append(rows, contract{fn: "openMessage.encode", name: "a parameter that cannot be encoded => error",
+			hook: nnResult("invoke:optionalParam.encode", true),
+			sel:  func(r ReturnSite) bool { return len(r.Results) == 2 && r.Results[1].IsNil() }, minRet: -1,
+			mustNot: []string{"call:invoke:optionalParam.encode"}, why: "an OPEN is emitted only when all of it was encoded"})
 	}
 	c.contracts(rule, rows)
 }
